@@ -1046,3 +1046,37 @@ def primary_degenerate(rng, count):
         reflen = R[-1] + 1 + rng.choice([0, 0, rng.randrange(0, 5000)])
         yield (f"PRIMARY res={res} blur={bl} mpd={rng.choice([20000, res, 3 * res])} count={rng.choice([1, 3, 3, 6])} rev={1 if rev else 0} "
                f"REF={mapstr(1, reflen, 0, R)} QRY={mapstr(2, qlen, 0, qq)}")
+
+
+def calls_random(rng, count):
+    """the two indel finders on one alignment with several pairs: breakage places at the last pair, past the end,
+    repeated, label numbers at the ends of the maps, gaps around both thresholds (100 / 2000) and the upper limit"""
+    for _ in range(count):
+        n = rng.randrange(2, 9)
+        R = sorted(rng.sample(range(0, 400000), rng.randrange(n, n + 6)))
+        Q = sorted(rng.sample(range(0, 400000), rng.randrange(n, n + 6)))
+        if rng.random() < 0.5:      # planted gaps near the thresholds
+            base = 0
+            R, Q = [0], [0]
+            for _ in range(n + 2):
+                g = rng.choice([5000, 9000, 20000])
+                d = rng.choice([0, 99, 100, 101, -100, -101, 1999, 2000, 2001, -2001, 50000, 99999, 100000, -99999])
+                R.append(R[-1] + g + max(d, 0))
+                Q.append(Q[-1] + g + max(-d, 0))
+        rs = sorted(rng.sample(range(1, len(R) + 1), min(n, len(R))))
+        qs = sorted(rng.sample(range(1, len(Q) + 1), min(n, len(Q))))
+        if rng.random() < 0.3:
+            qs = qs[::-1]
+        pairs = list(zip(rs, qs))
+        if rng.random() < 0.1:
+            pairs.append((len(R) + rng.randrange(0, 2), len(Q)))       # a label number one past the end of the reference
+        ps = ",".join(f"{a}:{b}" for a, b in pairs)
+        if rng.random() < 0.5:
+            bp = [rng.randrange(-1, len(pairs) + 1) for _ in range(rng.randrange(0, 4))]
+            yield (f"CALLS variant=seg chrom={rng.randrange(1, 24)} qid={rng.randrange(1, 999)} R={','.join(map(str, R))} Q={','.join(map(str, Q))} "
+                   f"PAIRS={ps} BP={','.join(map(str, bp))}")
+        else:
+            i = rng.randrange(-1, len(pairs) + 1)
+            a, b = pairs[max(0, min(i, len(pairs) - 1))] if rng.random() < 0.8 else (rng.randrange(1, len(R) + 1), rng.randrange(1, len(Q) + 1))
+            yield (f"CALLS variant=mol chrom={rng.randrange(1, 24)} qid={rng.randrange(1, 999)} R={','.join(map(str, R))} Q={','.join(map(str, Q))} "
+                   f"PAIRS={ps} BP={i} BPAIR={a}:{b}")
